@@ -37,8 +37,10 @@
  *                   and dropped
  *   drain forms   : without a scripted hard error the sink ends up with the
  *                   whole stream (return value not pinned)
- *   aux buffer    : no access outside the buffer's memory; octets in front
- *                   of `offset` untouched by the non-rewinding forms
+ *   aux buffer    : no access outside the buffer's memory; the non-rewinding
+ *                   forms hand their drivers only ranges inside [offset, used)
+ *                   (or inside [used, size), the other reading of "designated
+ *                   region"), and leave the octets in front of `offset` alone
  *   every form    : bounded number of driver calls (clause C17/hang): every
  *                   driver has a call budget, answers -EIO beyond it and jumps
  *                   out of the library if even that does not stop the loop
@@ -76,7 +78,7 @@ static const uint8_t DEV_OCTET_SNK[] = { B_ZERO, B_EINTR, B_EAGAIN, B_EIO, B_ENO
 #define STREAM(i) ((unsigned char)((i) + 1u))
 #define UNBOUNDED 200u   /* one-sided source operations: the budget ends a run long before */
 #define GOTCAP 96u
-#define SANE_ASK 64u
+#define ABSURD_ASK ((size_t)SSIZE_MAX / 2u) /* beyond this only an unrefused invalid count (or a wrapped one) arrives */
 #define SLOTS_ONE 8
 #define SLOTS_SIDE 6
 
@@ -107,7 +109,8 @@ static struct {
     int partials, zeros, intrs, hards, ends; /* answers really delivered */
     /* auxiliary buffer under observation */
     unsigned char *aux;
-    size_t aux_size;
+    size_t aux_size, aux_off, aux_used;
+    bool aux_strict; /* non-rewinding forms: the region as passed in is the region used */
     bool aux_bad;
     long aux_bad_off;
     size_t aux_bad_len;
@@ -135,8 +138,18 @@ aux_range_bad(const void *p, size_t len)
     const uintptr_t lo = b - 64u, hi = b + E.aux_size + 64u;
     if (a + len <= lo || a >= hi)
         return false; /* some other object (checked by ASan) */
-    if (a >= b && a + len <= b + E.aux_size)
-        return false;
+    if (a >= b && a + len <= b + E.aux_size) {
+        if (!E.aux_strict)
+            return false;
+        /* The designated region is [offset, used) as the code reads it; an
+         * implementation that took the free octets [used, size) instead is
+         * not contradicted by the statement either.  A range that lies in
+         * neither (in front of offset, or straddling `used`) is outside the
+         * designated region under both readings. */
+        const size_t o = (size_t)(a - b);
+        if ((o >= E.aux_off && o + len <= E.aux_used) || (o >= E.aux_used && o + len <= E.aux_size))
+            return false;
+    }
     E.aux_bad = true;
     E.aux_bad_off = (long)((intptr_t)a - (intptr_t)b);
     E.aux_bad_len = len;
@@ -190,14 +203,20 @@ drv_answer(struct drv *d, size_t asked, unsigned char *w, const unsigned char *r
         size_t t = (b == B_ONE) ? 1u : (b == B_TWO) ? 2u : (b == B_K) ? (asked ? asked - 1u : 0u) : asked;
         if (t > asked)
             t = asked;
-        if (asked > SANE_ASK) {
-            /* only an unrefused invalid count gets here; touch nothing */
+        if (asked > ABSURD_ASK) {
+            /* only an unrefused invalid count gets here; touch nothing.  (Any
+             * other request is served, however large: how much an
+             * implementation asks for in one call is its own business; ASan
+             * and the aux-region check watch the memory it names.) */
             E.absurd = true;
             ans = -EIO;
             break;
         }
+        size_t could = asked; /* what the default answer would have moved */
         if (!d->is_sink) {
             const size_t left = d->total - d->next;
+            if (left < could)
+                could = left;
             if (left == 0) {
                 ans = -ENODATA;
                 d->ended = true;
@@ -233,7 +252,7 @@ drv_answer(struct drv *d, size_t asked, unsigned char *w, const unsigned char *r
         }
         if (asked > 0 && t == 0)
             E.zeros++;
-        else if (t < asked)
+        else if (t < could)
             E.partials++;
         ans = (ssize_t)t;
     }
@@ -684,6 +703,9 @@ run_case(const struct impl *im, const struct casep *c, bool *nontrivial)
         aux.offset = (size_t)c->off;
         E.aux = mem;
         E.aux_size = (size_t)c->size;
+        E.aux_off = (size_t)c->off;
+        E.aux_used = (size_t)c->used;
+        E.aux_strict = (op == OP_SOME_AUX || op == OP_ATMOST_AUX);
     }
 
     run_rc = 0;
@@ -733,8 +755,8 @@ run_case(const struct impl *im, const struct casep *c, bool *nontrivial)
         return "hang";
     }
     if (E.aux_bad) {
-        report("C17/aux-region", "driver was handed %zu octets at offset %ld of an auxiliary buffer of %zu octets",
-               E.aux_bad_len, E.aux_bad_off, E.aux_size);
+        report("C17/aux-region", "driver was handed %zu octets at offset %ld of an auxiliary buffer (offset=%zu used=%zu size=%zu)",
+               E.aux_bad_len, E.aux_bad_off, E.aux_off, E.aux_used, E.aux_size);
         return "aux-region";
     }
     if (op_aux(op) && (op == OP_SOME_AUX || op == OP_ATMOST_AUX)) {
@@ -1062,8 +1084,8 @@ struct auxcfg { int off, used, size; };
  * [used,size) are both non-empty, whichever of the two an implementation
  * takes to be the region it may use.  The first `aux_deep` geometries of a
  * tier are explored to the full deviation bound, the others to one less. */
-static const struct auxcfg AUX_QUICK[] = { { 0, 2, 3 }, { 1, 3, 4 }, { 0, 1, 2 }, { 0, 1, 3 }, { 2, 4, 5 } };
-static const struct auxcfg AUX_THOROUGH[] = { { 0, 2, 3 }, { 1, 3, 4 }, { 0, 1, 2 }, { 0, 3, 4 }, { 0, 1, 3 }, { 1, 2, 3 }, { 2, 4, 5 } };
+static const struct auxcfg AUX_QUICK[] = { { 0, 2, 3 }, { 1, 3, 4 }, { 0, 1, 2 }, { 0, 1, 3 }, { 2, 4, 5 }, { 2, 4, 6 } };
+static const struct auxcfg AUX_THOROUGH[] = { { 0, 2, 3 }, { 1, 3, 4 }, { 0, 1, 2 }, { 0, 3, 4 }, { 0, 1, 3 }, { 1, 2, 3 }, { 2, 4, 5 }, { 2, 4, 6 } };
 
 struct tier {
     int one_len;        /* one-sided: script slots */
@@ -1077,11 +1099,11 @@ struct tier {
     const struct auxcfg *aux; int naux, aux_deep;
 };
 
-static const size_t Q_COUNTS[] = { 0, 1, 2, 3, 6 }, Q_LENGTHS[] = { 0, 1, 3, 5 }, Q_ATMOST[] = { 1, 2 }, Q_SHORTS[] = { 2 };
-static const size_t T_COUNTS[] = { 0, 1, 2, 3, 4, 5, 6 }, T_LENGTHS[] = { 0, 1, 2, 3, 4, 5, 6 }, T_ATMOST[] = { 1, 2, 3 },
+static const size_t Q_COUNTS[] = { 0, 1, 2, 3, 6 }, Q_LENGTHS[] = { 0, 1, 3, 5 }, Q_ATMOST[] = { 1, 2, 3 }, Q_SHORTS[] = { 2 };
+static const size_t T_COUNTS[] = { 0, 1, 2, 3, 4, 5, 6 }, T_LENGTHS[] = { 0, 1, 2, 3, 4, 5, 6 }, T_ATMOST[] = { 1, 2, 3, 5 },
                     T_SHORTS[] = { 2, 5 };
-static const struct tier QUICK = { SLOTS_ONE, 5, 3, 3, Q_COUNTS, 5, Q_LENGTHS, 4, Q_ATMOST, 2, Q_SHORTS, 1, AUX_QUICK, 5, 2 };
-static const struct tier THOROUGH = { SLOTS_ONE, 6, 4, 4, T_COUNTS, 7, T_LENGTHS, 7, T_ATMOST, 3, T_SHORTS, 2, AUX_THOROUGH, 7, 4 };
+static const struct tier QUICK = { SLOTS_ONE, 5, 3, 3, Q_COUNTS, 5, Q_LENGTHS, 4, Q_ATMOST, 3, Q_SHORTS, 1, AUX_QUICK, 6, 2 };
+static const struct tier THOROUGH = { SLOTS_ONE, 6, 4, 4, T_COUNTS, 7, T_LENGTHS, 7, T_ATMOST, 4, T_SHORTS, 2, AUX_THOROUGH, 8, 4 };
 
 static void
 one_sided_layer(const struct tier *t, int d, void (*leaf)(const struct casep *, int))
